@@ -1,5 +1,5 @@
 Require Extraction.
 Require Import ExtrOcamlBasic.
 From GoPdf.Base Require Import WireAnchor.
-From GoPdf.C11 Require Import Copier Checker.
-Separate Extraction wire_anchor run_calls init fuel_bound iso_ok canon target_graph puts trans next.
+From GoPdf.C11 Require Import Copier Checker StreamCrypt.
+Separate Extraction wire_anchor run_calls init fuel_bound iso_ok canon target_graph puts trans next predict_cipher.
